@@ -119,6 +119,28 @@ func planC11(g *Gen, tier string) ([]SQLCase, map[string]int, bool) {
 			}
 		}
 	}
+	// taller frames whose columns start with many nils (type inference must still find the first value)
+	for i := 0; i < scale(tier, 24, 200); i++ {
+		nr := 10 + g.r.Intn(6)
+		lead := 8 + g.r.Intn(5)
+		if lead > nr {
+			lead = nr
+		}
+		f := g.sqlFrame(nr, 1+g.r.Intn(3))
+		for ci := range f.Cols {
+			for r := 0; r < lead && r < len(f.Cols[ci].Data); r++ {
+				f.Cols[ci].Data[r] = NilCell()
+			}
+			if lead < nr && f.Cols[ci].Data[lead].T == "nil" {
+				f.Cols[ci].Data[lead] = []Cell{IntCell("int", 5), F64Cell(2.5), BoolCell(true), TimeCell(time.Date(2021, 1, 2, 3, 4, 5, 0, time.UTC)), IntCell("int64", 9)}[g.r.Intn(5)]
+			}
+		}
+		d := []string{"sqlite", "postgres", "mysql"}[g.r.Intn(3)]
+		w := &WCase{HasOpt: true, IfExists: BStr([]string{"fail", "replace"}[g.r.Intn(2)]), Dialect: BStr(d), Batch: int64([]int{0, 1, 4}[g.r.Intn(3)]), TypeMapNil: true, Table: "t", Frame: f, Entry: "ToSQL"}
+		w.Store = sortStore([]NamedTable{otherTable()})
+		cases = append(cases, SQLCase{Kind: "w", Tag: "tall-leading-nils", W: w})
+		stats["tall-leading-nils"]++
+	}
 	n := scale(tier, 250, 4000)
 	for i := 0; i < n; i++ {
 		nr := g.r.Intn(maxRows + 1)
@@ -175,10 +197,21 @@ func planC12(g *Gen, tier string) ([]SQLCase, map[string]int, bool) {
 	cases := []SQLCase{}
 	stats := map[string]int{}
 	maxRows := scale(tier, 3, 5)
+	sizes := []int{}
 	for n := 0; n <= maxRows; n++ {
+		sizes = append(sizes, n)
+	}
+	sizes = append(sizes, 11, 13) // many batches: a count threshold must not split the transaction
+	for _, n := range sizes {
 		for _, bs := range []int{1, 2, 0} {
+			if n > maxRows && bs != 1 {
+				continue
+			}
 			for _, mode := range []string{"fail", "replace", "append"} {
 				for present := 0; present < 2; present++ {
+					if n > maxRows && !(mode == "replace" || (mode == "fail" && present == 0)) {
+						continue
+					}
 					d := []string{"sqlite", "postgres", "mysql"}[g.r.Intn(3)]
 					f := g.sqlFrame(n, 1+g.r.Intn(2))
 					base := WCase{HasOpt: true, IfExists: BStr(mode), Dialect: BStr(d), Batch: int64(bs), TypeMapNil: true, Table: "t", Frame: f, Entry: "ToSQLContext"}
@@ -459,6 +492,32 @@ func planC14(g *Gen, tier string) ([]SQLCase, map[string]int, bool) {
 			tag = "query-error"
 		}
 		add(tag, r)
+	}
+	// one options map reused by consecutive calls (with and without ParseDates): it must not be changed
+	for i := 0; i < scale(tier, 30, 300); i++ {
+		id := fmt.Sprintf("shared%d", i)
+		m := []KV{{K: "c0", V: StrCell("1999-12-31")}, {K: "c1", V: IntCell("int", 7)}}
+		if g.chance(0.5) {
+			m = []KV{{K: "c0", V: StrCell("2021-03-04 05:06:07")}, {K: "c1", V: StrCell("dflt")}}
+		}
+		for call := 0; call < 3; call++ {
+			rs := ResultSet{Names: []BStr{"c0", "c1"}, Types: []BStr{"TEXT", "INTEGER"}, Rows: [][]Cell{}, ErrAt: -1}
+			for r := 0; r < 1+g.r.Intn(3); r++ {
+				row := []Cell{StrCell("2020-01-02"), IntCell("int64", int64(r))}
+				if g.chance(0.6) {
+					row[0] = NilCell()
+				}
+				if g.chance(0.3) {
+					row[1] = NilCell()
+				}
+				rs.Rows = append(rs.Rows, row)
+			}
+			dates := []BStr{}
+			if call != 1 {
+				dates = []BStr{"c0"}
+			}
+			add("shared-handler-map", &RCase{SharedMap: id, Handler: Handler{Kind: "map", M: m}, RS: rs, Dates: dates, Entry: "FromSQL"})
+		}
 	}
 	// an error injected at each row of the iteration
 	for nr := 0; nr <= 4; nr++ {
